@@ -156,6 +156,10 @@ def where_of(rec, op):
     if o["kind"] == "error":
         m = re.search(r" @ ([\w.]+):(\w+):(L\w+):", rec["detail"] + " ")
         return "%s:%s:%s" % (m.group(1), m.group(2), m.group(3)) if m else "?"
+    if any(d["k"] == "o_pv" for d in rec["defects"]):
+        # a value taken from a PARAMVALUE child that was mistaken for the
+        # return element is a different defect than an unchecked element
+        return op.shape + "/o_pv"
     return op.shape
 
 
